@@ -61,9 +61,10 @@ C01_LimitAtStart ==
 
 C01_RunInsideSpan ==
   \A j \in J : \A t \in TaskIds(j) :
-     /\ Run(j, t).begun > 0 => Run(j, t).execAtBegin
-     /\ (Run(j, t).begun > 0 /\ ~Run(j, t).open) => Run(j, t).execAtEnd
-     /\ (Quiet /\ Run(j, t).open) => Executing(st, j)
+     \* (a job purged by retention - see C12 - is no longer reported at all: "gone")
+     /\ Run(j, t).begun > 0 => (Run(j, t).execAtBegin \/ Run(j, t).goneAtBegin)
+     /\ (Run(j, t).begun > 0 /\ ~Run(j, t).open) => (Run(j, t).execAtEnd \/ Run(j, t).goneAtEnd)
+     /\ (Quiet /\ Run(j, t).open /\ st.jobs[j].listed) => Executing(st, j)
 
 OpenJobs(p) == {j \in Of(st, p) : \E t \in TaskIds(j) : Run(j, t).open}
 C01_RunLimit ==
@@ -90,7 +91,7 @@ C02_CyclicNeverRuns ==
      /\ \A t \in TaskIds(j) : Run(j, t).begun = 0
      /\ (st.phase = "drained" /\ Defined(st.jobs[j].p)) => (st.jobs[j].canceled /\ (st.jobs[j].lastErr # "" \/ UserCause(j) \/ ~st.jobs[j].started))
 
-NoTrouble(j) == /\ st.stop[j].n = 0 /\ st.ack[j].n = 0
+NoTrouble(j) == /\ st.stop[j].n = 0 /\ st.ack[j].n = 0 /\ ~st.jobs[j].rst /\ ~st.jobs[j].lost
                 /\ \A t \in TaskIds(j) : Run(j, t).outcome \in {"none", "ok"} \/ (Run(j, t).outcome = "fail" /\ V(j).tasks[t].allow)
 C02_AcyclicCompletes ==
   \A j \in J : (~V(j).cyclic /\ st.jobs[j].bad = "none") =>
@@ -252,6 +253,104 @@ C08_VerdictSound ==
 C08_NoRunningAfterCompleted ==
   Quiet => \A j \in J : st.jobs[j].completed => \A t \in TaskIds(j) : st.jobs[j].tasks[t].status # "running"
 
+
+-----------------------------------------------------------------------------
+(* C10 - restart from a persisted snapshot.  A "Restart" line: st is what the NEW runner reports, *)
+(* pre is the last quiescent vocabulary of the old runner, pre.store the content of the store.  *)
+
+IsRestart == ev.k = "Restart"
+
+C10_AllTerminal ==
+  IsRestart => \A j \in J : st.jobs[j].listed =>
+     /\ Finished(st, j) /\ ~Executing(st, j) /\ ~Waiting(st, j)
+     /\ (Known(pre, j) /\ pre.store.jobs[j].present /\ ~pre.store.jobs[j].completed /\ ~pre.store.jobs[j].canceled) => st.jobs[j].canceled
+     /\ \A t \in TaskIds(j) : st.jobs[j].tasks[t].status # "running"
+
+C10_NoGhosts ==
+  IsRestart => \A p \in Pipes : Defined(p) => (st.pipes[p].listed /\ st.pipes[p].schedulable /\ ~st.pipes[p].running)
+
+C10_SameSet ==
+  IsRestart => /\ st.extra = 0 /\ pre.store.loaded
+               /\ \A j \in J : Known(pre, j) => (st.jobs[j].listed <=> pre.store.jobs[j].present)
+
+TaskSame(a, b) == /\ a.present = b.present /\ a.pos = b.pos /\ a.status = b.status /\ a.errored = b.errored /\ a.exit = b.exit
+                  /\ a.hasStart = b.hasStart /\ a.startAt = b.startAt /\ a.hasEnd = b.hasEnd /\ a.endAt = b.endAt
+C10_FinishedFaithful ==
+  IsRestart => \A j \in J : (Known(pre, j) /\ pre.store.jobs[j].present /\ pre.store.jobs[j].same /\ Finished(pre, j)) =>
+     LET a == pre.jobs[j]  b == st.jobs[j] IN
+     /\ b.listed /\ b.faithful
+     /\ a.started = b.started /\ a.completed = b.completed /\ a.canceled = b.canceled /\ a.errored = b.errored
+     /\ a.lastErr = b.lastErr /\ a.hasEnd = b.hasEnd /\ a.startAt = b.startAt /\ a.endAt = b.endAt /\ a.createdAt = b.createdAt
+     /\ a.ntasks = b.ntasks /\ \A t \in TaskIds(j) : TaskSame(a.tasks[t], b.tasks[t])
+
+-----------------------------------------------------------------------------
+(* C11 - shutdown *)
+
+ShutRet == Quiet /\ st.shut = "returned"
+StoreAgrees == /\ st.store.loaded /\ st.store.extra = 0
+               /\ \A j \in J : /\ st.jobs[j].listed <=> st.store.jobs[j].present
+                               /\ st.jobs[j].listed => st.store.jobs[j].same
+
+C11_AllTerminal ==
+  ShutRet => \A j \in J : /\ st.jobs[j].listed => Finished(st, j)
+                          /\ \A t \in TaskIds(j) : ~Run(j, t).open
+
+C11_StoreMatches == ShutRet => StoreAgrees
+
+C11_RejectAfter ==
+  (IsOp("schedule") /\ pre.shut # "no") => (st.last.res = "err" /\ st.last.err = "shutdown")
+
+C11_GracefulRunsOut ==
+  (ShutRet /\ ~st.forced) => \A j \in J : st.jobs[j].listed =>
+     /\ (st.jobs[j].started /\ NoTrouble(j)) => (Plain(st, j) /\ \A t \in TaskIds(j) : Run(j, t).begun = 1)
+     /\ st.stop[j].n >= 1 => (st.ack[j].n > 0 \/ \E t \in TaskIds(j) : FailedHard(j, t))
+     /\ ~st.jobs[j].started => st.jobs[j].canceled
+
+C11_ForcedCancels ==
+  (ShutRet /\ st.forced) => \A j \in J : (st.jobs[j].listed /\ st.jobs[j].started /\ Plain(st, j)) =>
+     \A t \in TaskIds(j) : Run(j, t).begun = 1 /\ OkFor(j, t)
+
+C11_PersistWithinInterval ==
+  (Quiet /\ st.phase = "run" /\ st.idle >= 3100) => StoreAgrees
+
+-----------------------------------------------------------------------------
+(* C12 - retention.  Removed: reported before the step and not after it. *)
+
+Removed == {j \in JobIds(pre) : pre.jobs[j].listed /\ ~st.jobs[j].listed}
+RetSet(p) == Defined(p) /\ (Cur(p).retCount > 0 \/ Cur(p).retPeriod > 0)
+SaveLine == IsOp("save") \/ (ShutRet /\ ev.k = "Op")
+
+\* a job that stops being reported was finished before the step, or was finished by the step itself (a cancel, a
+\* replacement, a completion at a poll) - never by a save or reload step, and never with a task still executing
+InertOp == ev.k = "Op" /\ st.last.op \in {"save", "reload", "finish"}
+C12_KeepsUnfinished ==
+  (Quiet /\ ~IsRestart) => \A j \in Removed : Defined(st.jobs[j].p) =>
+     (Finished(pre, j) \/ (~InertOp /\ \A t \in TaskIds(j) : ~Run(j, t).open))
+
+C12_NoSettingsNoRemoval ==
+  (Quiet /\ ~IsRestart) => \A j \in Removed : (~Defined(st.jobs[j].p) \/ RetSet(st.jobs[j].p))
+
+C12_NewestFirstClosure ==
+  (Quiet /\ ~IsRestart) => \A j \in Removed : Defined(st.jobs[j].p) =>
+     \A k \in JobIds(pre) : (k < j /\ pre.jobs[k].p = pre.jobs[j].p /\ pre.jobs[k].listed /\ Finished(pre, k)) => ~st.jobs[k].listed
+
+C12_CountBound ==
+  IsOp("save") => \A p \in Pipes : (Defined(p) /\ Cur(p).retCount > 0) =>
+     Cardinality({j \in Of(st, p) : st.jobs[j].listed /\ Finished(st, j)}) <= Cur(p).retCount
+
+C12_PeriodBound ==
+  IsOp("save") => \A p \in Pipes : (Defined(p) /\ Cur(p).retPeriod > 0) =>
+     \A j \in Of(st, p) : (st.jobs[j].listed /\ Finished(st, j)) => st.jobs[j].age <= Cur(p).retPeriod
+
+C12_UndefinedPurged ==
+  IsOp("save") => \A j \in J : ~Defined(st.jobs[j].p) => ~st.jobs[j].listed
+
+C12_ThreeViewsAgree ==
+  IsOp("save") => /\ st.store.loaded /\ st.store.extra = 0 /\ st.xlogs = 0
+                  /\ \A j \in J : /\ st.jobs[j].listed <=> st.store.jobs[j].present
+                                  /\ (~st.jobs[j].listed /\ ~st.jobs[j].lost) => ~st.logs[j]
+                                  /\ (st.jobs[j].listed /\ Known(pre, j) /\ pre.logs[j]) => st.logs[j]
+
 -----------------------------------------------------------------------------
 (* C15 - reports agree with behaviour *)
 
@@ -269,7 +368,9 @@ C15_ListedFromReturn ==
   Quiet => /\ st.extra = 0
            /\ \A j \in J : /\ st.jobs[j].listed <=> st.jobs[j].inList
                            /\ st.jobs[j].listed <=> st.jobs[j].byId
-                           /\ ~st.jobs[j].listed => (Retainable(j) /\ Known(pre, j) /\ (~pre.jobs[j].listed \/ Finished(pre, j) \/ ~Defined(st.jobs[j].p)))
+                           \* judged at the step in which the job stops being reported
+                           /\ (~st.jobs[j].listed /\ ~IsRestart /\ ~st.jobs[j].lost /\ (Known(pre, j) => pre.jobs[j].listed)) =>
+                                 Retainable(j)
                            /\ st.jobs[j].listed => st.jobs[j].jsonAgree
 
 C15_NewestFirst ==
